@@ -212,3 +212,5 @@ ASSUMPTIONS = [
 ]
 OUTSIDE = ['float rounding of timer sums', 'more coroutines, yields or frames than the bounds',
            'coroutines started from inside other coroutines (C09)', 'non-numeric yield values']
+
+TECHNIQUE = 'bounded symbolic execution with real-valued dt and waits (z3 LRA): wake-up frames checked as validity of linear inequalities, concolic cross-check'
